@@ -71,7 +71,7 @@ def build_and_audit(prop, extra_modules=()):
             continue   # auto-generated equation/induction lemmas realised in this module
         axl = [a.strip() for a in axs.split(",") if a.strip()]
         res["theorems"].append((name, axl))
-        if ".Generated." in name:
+        if ".Generated" in name:
             res["generated_theorems"] += 1
         if set(axl) <= ALLOWED_AXIOMS:
             res["discharged"] += 1
